@@ -187,6 +187,31 @@ where
     out
 }
 
+
+/// A verifier's DECISION must not depend on the value of a random draw. The call is made with the draw tape in
+/// record mode; if the verifier drew anything (none does on the pinned tree), it is repeated with every draw forced
+/// to 0, to 1 and to r - 1, and a different outcome class is an oracle failure (a randomised check -- blinding,
+/// batching -- is fine as long as no value of its randomness flips the decision).
+pub fn decided<T>(h: &mut H, what: &str, f: impl Fn() -> Out<T>) -> Out<T> {
+    verif_hooks::start(vec![]);
+    let out = f();
+    let draws = verif_hooks::stop();
+    if !draws.is_empty() {
+        h.stat("verifier.draws_randomness");
+        let mut one = [0u8; 32];
+        one[31] = 1;
+        let rm1: [u8; 32] = [0x73, 0xed, 0xa7, 0x53, 0x29, 0x9d, 0x7d, 0x48, 0x33, 0x39, 0xd8, 0x08, 0x09, 0xa1, 0xd8, 0x05, 0x53, 0xbd, 0xa4, 0x02, 0xff, 0xfe, 0x5b, 0xfe, 0xff, 0xff, 0xff, 0xff, 0x00, 0x00, 0x00, 0x00];
+        for (nm, v) in [("0", [0u8; 32]), ("1", one), ("r - 1", rm1)] {
+            verif_hooks::start(vec![v.to_vec(); draws.len()]);
+            let o2 = f();
+            let _ = verif_hooks::stop();
+            h.expect(o2.class() == out.class(), "C02.decision_depends_on_randomness",
+                &format!("{} returned '{}' with its own randomness and '{}' with every random draw forced to {}: the decision depends on the value of a random draw", what, out.class(), o2.class(), nm), &[h.next_id]);
+        }
+    }
+    out
+}
+
 pub fn verify<CS: BbsCiphersuite>(
     h: &mut H,
     pk: &BBSplusPublicKey,
@@ -198,7 +223,7 @@ where
     CS::Expander: for<'a> ExpandMsg<'a>,
 {
     let s = Sig::<CS>::BBSplus(sig.clone());
-    let out = guard(|| s.verify(pk, msgs, hdr));
+    let out = decided(h, "verify", || guard(|| s.verify(pk, msgs, hdr)));
     let (a, e) = sig_args(sig);
     log(h, "verify", &[hx(&pk.to_bytes()), a, e, ohx(hdr), olhx(msgs)], &out, |_| vec![]);
     out
@@ -280,7 +305,7 @@ pub fn proofverify<CS: BbsCiphersuite>(
 where
     CS::Expander: for<'a> ExpandMsg<'a>,
 {
-    let out = guard(|| proof.proof_verify(pk, dmsgs, idx, hdr, ph));
+    let out = decided(h, "proof_verify", || guard(|| proof.proof_verify(pk, dmsgs, idx, hdr, ph)));
     log(
         h,
         "proofverify",
@@ -344,7 +369,7 @@ where
 {
     let s = Bsig::<CS>::BBSplus(sig.clone());
     let bf = blind.map(|b| BlindFactor::from_bytes(b).expect("blind factor"));
-    let out = guard(|| s.verify_blind_sign(pk, hdr, msgs, cmsgs, bf.as_ref()));
+    let out = decided(h, "verify_blind_sign", || guard(|| s.verify_blind_sign(pk, hdr, msgs, cmsgs, bf.as_ref())));
     let (a, e) = sig_args(sig);
     log(
         h,
@@ -412,7 +437,7 @@ pub fn blindproofverify<CS: BbsCiphersuite>(
 where
     CS::Expander: for<'a> ExpandMsg<'a>,
 {
-    let out = guard(|| proof.blind_proof_verify(pk, hdr, ph, L, dmsgs, dcmsgs, idx, cidx));
+    let out = decided(h, "blind_proof_verify", || guard(|| proof.blind_proof_verify(pk, hdr, ph, L, dmsgs, dcmsgs, idx, cidx)));
     log(
         h,
         "blindproofverify",
